@@ -250,7 +250,12 @@ func (e *miniEval) run(stmts []ast.Stmt) (status int, rets []int64) {
 		case *ast.IncDecStmt:
 			id, ok := s.X.(*ast.Ident)
 			if !ok {
-				e.effects = append(e.effects, core.ExprStr(s.X)+s.Tok.String())
+				// x++ and x += 1 are the same effect
+				op := " += 1"
+				if s.Tok == token.DEC {
+					op = " -= 1"
+				}
+				e.effects = append(e.effects, core.ExprStr(s.X)+op)
 				break
 			}
 			if s.Tok == token.INC {
